@@ -451,6 +451,7 @@ func (p *Parser) parseProviderArgument(pkg *packages.Package, kessokuPackageScop
 			Requires:          result.Requires,
 			IsReturnError:     result.IsReturnError,
 			IsAsync:           result.IsAsync,
+			IsVariadic:        result.IsVariadic,
 			ReferencedImports: referencedImports,
 		})
 	}
@@ -466,6 +467,7 @@ type parseProviderTypeResult struct {
 	IsReturnError bool
 	IsAsync       bool
 	IsStruct      bool
+	IsVariadic    bool
 }
 
 func (p *Parser) parseProviderType(pkg *packages.Package, providerType types.Type, varPool *VarPool) (*parseProviderTypeResult, error) {
@@ -558,6 +560,7 @@ func (p *Parser) parseProviderType(pkg *packages.Package, providerType types.Typ
 			IsReturnError: isReturnError,
 			IsAsync:       false,
 			IsStruct:      false,
+			IsVariadic:    providerFnSig.Variadic(),
 		}, nil
 	case "structProvider":
 		if typeArgs.Len() < 1 {
